@@ -225,6 +225,32 @@ def group_depth(s):
                 d -= 1
     return best
 
+def choice_group_depth(s):
+    """maximal number of CHOICE groups (separator '|' at their own level) along one nesting chain inside an
+    <!ELEMENT ...> declaration -- the shape of finding D10: `cp` tries `seq` before `choice`, so the first
+    member of a choice group is parsed twice per level; sequence groups are parsed once"""
+    best = 0
+    for m in re.finditer(r'<!ELEMENT[^>]*>', s):
+        stack = []          # per open group: [is_choice, best chain depth among closed children]
+        for c in m.group(0):
+            if c == '(':
+                stack.append([False, 0])
+            elif c == '|' and stack:
+                stack[-1][0] = True
+            elif c == ')' and stack:
+                ch, sub = stack.pop()
+                d = sub + (1 if ch else 0)
+                best = max(best, d)
+                if stack:
+                    stack[-1][1] = max(stack[-1][1], d)
+        while stack:        # unclosed groups (garbage): count what is there
+            ch, sub = stack.pop()
+            d = sub + (1 if ch else 0)
+            best = max(best, d)
+            if stack:
+                stack[-1][1] = max(stack[-1][1], d)
+    return best
+
 def has_attlist(s):
     return '<!ATTLIST' in s
 
